@@ -12,3 +12,4 @@ open Fzf.Props.C04
 #print axioms C04_pass_get
 #print axioms C04_pass_get_tac
 #print axioms C04_asUint16_is_source
+#print axioms C04_each_line_once
